@@ -510,6 +510,58 @@ macro_rules! define_hash_key_seam {
             }
         }
 
+        // The clock seam. logos-codegen reads no clock on the pinned tree; the simulator owns the symbol all the same, so
+        // that a dependence on elapsed time (a time budget, a timestamp in the output) becomes a visible, replayable
+        // difference instead of a flaky one. On a simulated thread with a clock step of n > 0 nanoseconds every call of
+        // clock_gettime (std's Instant::now / SystemTime::now) returns a time n ns later than the previous call: a machine
+        // that is arbitrarily fast or slow. Harness threads (step 0) get the real clock.
+        thread_local! {
+            static __SEAM_CLOCK_STEP: ::std::cell::Cell<u64> = const { ::std::cell::Cell::new(0) };
+            static __SEAM_CLOCK_NOW: ::std::cell::Cell<u64> = const { ::std::cell::Cell::new(0) };
+            static __SEAM_CLOCK_CALLS: ::std::cell::Cell<u32> = const { ::std::cell::Cell::new(0) };
+        }
+
+        #[no_mangle]
+        pub unsafe extern "C" fn clock_gettime(clk: i32, ts: *mut [i64; 2]) -> i32 {
+            let step = __SEAM_CLOCK_STEP.with(|c| c.get());
+            if step == 0 || ts.is_null() {
+                extern "C" {
+                    fn syscall(num: i64, ...) -> i64;
+                }
+                // SYS_clock_gettime = 228 on x86_64
+                return syscall(228, clk as i64, ts) as i32;
+            }
+            let now = __SEAM_CLOCK_NOW.with(|c| { let t = c.get().saturating_add(step); c.set(t); t });
+            __SEAM_CLOCK_CALLS.with(|c| c.set(c.get() + 1));
+            // an arbitrary epoch well after boot / 1970
+            let t = 1_700_000_000_000_000_000u64.saturating_add(now);
+            (*ts)[0] = (t / 1_000_000_000) as i64;
+            (*ts)[1] = (t % 1_000_000_000) as i64;
+            0
+        }
+
+        /// Clock reads served by the seam on this thread.
+        #[allow(dead_code)]
+        pub fn seam_clock_calls_on_this_thread() -> u32 {
+            __SEAM_CLOCK_CALLS.with(|s| s.get())
+        }
+
+        /// Run `f` on a fresh OS thread with hash keys `keys` and a simulated clock that advances `step_ns` per read
+        /// (0: the real clock).
+        #[allow(dead_code)]
+        pub fn with_hash_keys_and_clock<R: Send + 'static>(keys: [u8; 16], step_ns: u64, f: impl FnOnce() -> R + Send + 'static) -> R {
+            ::std::thread::Builder::new()
+                .stack_size(64 << 20)
+                .spawn(move || {
+                    __SEAM_KEYS.with(|k| k.set(Some(keys)));
+                    __SEAM_CLOCK_STEP.with(|c| c.set(step_ns));
+                    f()
+                })
+                .expect("spawn")
+                .join()
+                .expect("simulated thread panicked outside catch")
+        }
+
         #[allow(dead_code)]
         pub fn seam_served_on_this_thread() -> u32 {
             __SEAM_SERVED.with(|s| s.get())
